@@ -63,5 +63,6 @@ func main() {
 	}
 	fmt.Fprintln(w, "].")
 	writeBrotliTables(w)
+	writeDerivedTables(w)
 	fmt.Fprintln(w, "End Impl.")
 }
